@@ -8,6 +8,7 @@ import (
 	"fmt"
 	"math/big"
 	"reflect"
+	"sort"
 	"strings"
 )
 
@@ -205,6 +206,13 @@ func (m *fieldMachine) vecOp(op string, a, b []*big.Int, lr int, off int, scalar
 			r.Elem().Set(out[0])
 			e["out"] = digits(f.Raw(r))
 		}
+	case "Sort": // sort.Sort over the documented sort.Interface of Vector
+		pa := reflect.New(f.VecT)
+		pa.Elem().Set(va)
+		_, pm, pk = call(reflect.ValueOf(func() { sort.Sort(pa.Interface().(sort.Interface)) }))
+		if !pk {
+			e["vout"] = f.VecRaw(va)
+		}
 	case "InnerProduct":
 		e["vb"] = rawList(b)
 		pa := reflect.New(f.VecT)
@@ -218,7 +226,7 @@ func (m *fieldMachine) vecOp(op string, a, b []*big.Int, lr int, off int, scalar
 	}
 	if pk {
 		e["panic"] = pm
-	} else if !m.lean {
+	} else if !m.lean && op != "Sort" {
 		// the sources must be untouched
 		e["vaafter"] = f.VecRaw(va)
 		if _, ok := e["vb"]; ok {
@@ -369,6 +377,10 @@ func (m *fieldMachine) vectors(pool []*big.Int, lens []int) {
 		m.vecOp("ScalarMul", a, nil, n, off, pool[r.Intn(len(pool))])
 		m.vecOp("Sum", a, nil, 0, off, nil)
 		m.vecOp("InnerProduct", a, b, 0, off, nil)
+		if n <= 64 {
+			// with repeated entries: the pool values come back several times
+			m.vecOp("Sort", append(append([]*big.Int{}, a...), a[:n/2]...), nil, 0, off, nil)
+		}
 		// batch inversion with zeros sprinkled in
 		bi := pick(n)
 		for i := range bi {
